@@ -345,4 +345,163 @@ theorem loop_times (c : Cfg) (dt : Q) (ts : List Q) (s s' : St)
       obtain ⟨r, hr, ht⟩ := stepAt_recs c dt s s1 t h1
       rw [ih s1 (by simpa using h), hr]; simp [ht]
 
+/-! ### consecutive records of a run -/
+
+/-- `R` holds between every two consecutive entries -/
+def Pairs (R : Rec → Rec → Prop) : List Rec → Prop
+  | a :: b :: rest => R a b ∧ Pairs R (b :: rest)
+  | _ => True
+
+/-- the live attributes are those of the last record (true after every `compute`; broken only by the
+    user changing attributes between runs) -/
+def Live (s : St) : Prop :=
+  ∀ a, s.recs.getLast? = some a →
+    s.pwm = a.pwm ∧ s.locked = a.locked ∧ s.pos = lastD a.pos ∧ s.speed = lastD a.speed ∧
+    s.acc = lastD a.acc ∧ s.mtorque = some (a.torque.headD 0)
+
+def Inv2 (c : Cfg) (s : St) : Prop := StInv c s ∧ Live s
+
+theorem live_of_nil (s : St) (h : s.recs = []) : Live s := by
+  intro a ha; rw [h] at ha; simp at ha
+
+theorem compute_live (c : Cfg) (s s' : St) (t : Q) (hinv : s.locked = true → c.sl = true)
+    (h : compute c s t = .ok s') : Live s' := by
+  obtain ⟨r, hr, _, _, hl, hp, hv, ha, hpwm, _, hm⟩ := compute_recOK c s s' t hinv h
+  intro a hla
+  rw [hr] at hla; simp at hla; subst hla
+  exact ⟨hpwm, hl, hp, hv, ha, hm⟩
+
+theorem compute_inv2 (c : Cfg) (s s' : St) (t : Q) (h : StInv c s) (hc : compute c s t = .ok s') : Inv2 c s' :=
+  ⟨compute_inv c s s' t h hc, compute_live c s s' t h.2 hc⟩
+
+/-- a relation established by every step between the last record and the new one holds pairwise
+    along the loop -/
+theorem loop_pairs (c : Cfg) (dt : Q) (stop) (R : Rec → Rec → Prop)
+    (hstep : ∀ (s s' : St) (t : Q) (a b : Rec), Inv2 c s → stepAt c dt s t = .ok s' →
+      s'.recs = s.recs ++ [b] → s.recs.getLast? = some a → R a b)
+    (ts : List Q) (s s' : St) (hinv : Inv2 c s) (h : loop c dt stop ts s = .ok s') :
+    ∃ new, s'.recs = s.recs ++ new ∧ Pairs R (s.recs.getLast?.toList ++ new) ∧ Inv2 c s' := by
+  induction ts generalizing s with
+  | nil =>
+    simp [loop] at h; subst h
+    refine ⟨[], by simp, ?_, hinv⟩
+    cases s.recs.getLast? <;> simp [Pairs]
+  | cons t ts ih =>
+    simp only [loop] at h
+    cases h1 : stepAt c dt s t with
+    | error e => simp [h1] at h
+    | ok s1 =>
+      simp only [h1] at h
+      obtain ⟨b, hb, _⟩ := stepAt_recs c dt s s1 t h1
+      have hinv1 : Inv2 c s1 := compute_inv2 c _ _ t (integrate_inv c s dt hinv.1) h1
+      have hrel : ∀ a, s.recs.getLast? = some a → R a b := fun a ha => hstep s s1 t a b hinv h1 hb ha
+      have hlast1 : s1.recs.getLast? = some b := by rw [hb]; simp
+      split at h
+      · simp only [Except.ok.injEq] at h; subst h
+        refine ⟨[b], hb, ?_, hinv1⟩
+        cases hl : s.recs.getLast? with
+        | none => simp [Pairs]
+        | some a => simp [Pairs]; exact hrel a hl
+      · obtain ⟨new, hn, hs, hi'⟩ := ih s1 hinv1 h
+        refine ⟨b :: new, by rw [hn, hb]; simp, ?_, hi'⟩
+        rw [hlast1] at hs
+        cases hl : s.recs.getLast? with
+        | none => simpa using hs
+        | some a =>
+          simp only [Option.toList_some, List.singleton_append] at hs ⊢
+          cases new with
+          | nil => simp [Pairs]; exact hrel a hl
+          | cons n ns => exact ⟨hrel a hl, hs⟩
+
+/-- the same for a run: continued (pairs include the last old record) or fresh (the first record
+    comes from the initial `compute`) -/
+theorem run_pairs (c : Cfg) (dt : Q) (n : Nat) (stop) (R : Rec → Rec → Prop)
+    (hstep : ∀ (s s' : St) (t : Q) (a b : Rec), Inv2 c s → stepAt c dt s t = .ok s' →
+      s'.recs = s.recs ++ [b] → s.recs.getLast? = some a → R a b)
+    (s s' : St) (hinv : Inv2 c s) (h : run c dt n stop s = .ok s') :
+    ∃ new, s'.recs = s.recs ++ new ∧ Pairs R (s.recs.getLast?.toList ++ new) ∧ Inv2 c s' := by
+  unfold run at h
+  cases hl : lastTime s with
+  | some t0 =>
+    simp only [hl] at h
+    exact loop_pairs c dt stop R hstep _ s s' hinv h
+  | none =>
+    simp only [hl] at h
+    have hnil : s.recs = [] := by
+      unfold lastTime at hl
+      cases hr : s.recs.getLast? with
+      | none => simpa using hr
+      | some a => rw [hr] at hl; simp at hl
+    cases h0 : compute c { s with locked := false } 0 with
+    | error e => simp [h0] at h
+    | ok s0 =>
+      simp only [h0] at h
+      have hinv0 : Inv2 c s0 := compute_inv2 c { s with locked := false } s0 0 ⟨hinv.1.1, by intro hh; simp at hh⟩ h0
+      obtain ⟨r, hr, _⟩ := compute_rec c { s with locked := false } s0 0 h0
+      obtain ⟨new, hn, hs, hi'⟩ := loop_pairs c dt stop R hstep _ s0 s' hinv0 h
+      refine ⟨r :: new, by rw [hn, hr]; simp, ?_, hi'⟩
+      rw [hr] at hs
+      simp only [hnil, List.nil_append, List.getLast?_singleton, Option.toList_some, List.singleton_append,
+        List.getLast?_nil, Option.toList_none] at hs ⊢
+      simpa using hs
+
+theorem reset_inv2 (c : Cfg) (s s' : St) (h : StInv c s) (hr : reset s = .ok s') : Inv2 c s' := by
+  refine ⟨applyOp_inv c s s' .reset h (by simpa [applyOp] using hr), live_of_nil s' ?_⟩
+  unfold reset at hr
+  split at hr
+  · simp at hr
+  · simp only [Except.ok.injEq] at hr; subst hr; rfl
+
+theorem init_inv2 (c : Cfg) (p v : Q) : Inv2 c (St.init p v) := ⟨init_inv c p v, live_of_nil _ rfl⟩
+
+
+
+theorem pairs_append (R : Rec → Rec → Prop) : ∀ (l new : List Rec),
+    Pairs R l → Pairs R (l.getLast?.toList ++ new) → Pairs R (l ++ new)
+  | [], new, _, h => by simpa using h
+  | [a], new, _, h => by simpa using h
+  | a :: b :: rest, new, h1, h2 => by
+    have : (a :: b :: rest).getLast? = (b :: rest).getLast? := by simp [List.getLast?_cons_cons]
+    rw [this] at h2
+    exact ⟨h1.1, pairs_append R (b :: rest) new h1.2 h2⟩
+
+/-- a schedule made of runs (fresh or continued, with any stop condition) and resets -/
+def RunsAndResets : List Op → Prop
+  | [] => True
+  | .run _ _ _ :: os => RunsAndResets os
+  | .reset :: os => RunsAndResets os
+  | _ :: _ => False
+
+/-- along a schedule of runs with one time step and resets, a relation established by every step
+    holds between all consecutive records of the final history -/
+theorem exec_pairs (c : Cfg) (R : Rec → Rec → Prop)
+    (hstep : ∀ (dt : Q) (s s' : St) (t : Q) (a b : Rec), Inv2 c s → stepAt c dt s t = .ok s' →
+      s'.recs = s.recs ++ [b] → s.recs.getLast? = some a → R a b)
+    (ops : List Op) (hops : RunsAndResets ops) (s s' : St) (hinv : Inv2 c s) (hp : Pairs R s.recs)
+    (h : exec c ops s = .ok s') : Pairs R s'.recs ∧ Inv2 c s' := by
+  induction ops generalizing s with
+  | nil => simp [exec] at h; subst h; exact ⟨hp, hinv⟩
+  | cons o os ih =>
+    simp only [exec] at h
+    cases h1 : applyOp c s o with
+    | error e => simp [h1] at h
+    | ok s1 =>
+      simp only [h1] at h
+      cases o with
+      | run dt n stop =>
+        obtain ⟨new, hn, hps, hi⟩ := run_pairs c dt n stop R (hstep dt) s s1 hinv (by simpa [applyOp] using h1)
+        exact ih hops s1 hi (by rw [hn]; exact pairs_append R _ _ hp hps) h
+      | reset =>
+        have hi := reset_inv2 c s s1 hinv.1 (by simpa [applyOp] using h1)
+        have hnil : s1.recs = [] := by
+          simp only [applyOp, reset] at h1
+          split at h1
+          · simp at h1
+          · simp only [Except.ok.injEq] at h1; subst h1; rfl
+        exact ih hops s1 hi (by rw [hnil]; trivial) h
+      | setInitial p v => exact absurd hops (by simp [RunsAndResets])
+      | setPwm p => exact absurd hops (by simp [RunsAndResets])
+      | newSolver => exact absurd hops (by simp [RunsAndResets])
+
+
 end Gearpy
